@@ -99,6 +99,8 @@ lzip_decode(void *coder_ptr, const lzma_allocator *allocator,
 {
 	lzma_lzip_coder *coder = coder_ptr;
 
+	VERIF_VISIT(VERIF_D_LZIP_SEQ, coder->sequence);
+
 	while (true)
 	switch (coder->sequence) {
 	case SEQ_ID_STRING: {
